@@ -30,7 +30,7 @@ class Contract:
                  lets=None, yields=None, variants=None, prop=None, defs=None, instantiate=None,
                  raises_only_if=None, replay=None, setup=None, pure=False, callee_contracts=None,
                  ghost_after=None, ghost_entry=None, enclosing=None, instantiate_entry=None,
-                 instantiate_call=None, lemmas=None, uses=None, blocks=None, decreases=None, doc=''):
+                 instantiate_call=None, lemmas=None, uses=None, blocks=None, decreases=None, ghost_exit=None, local_ensures=None, doc=''):
         self.qualname = qualname
         self.params = dict(params or {})
         self.requires = _labelled(requires, 'pre')
@@ -63,6 +63,9 @@ class Contract:
         self.uses = dict(uses or {})       # goal label -> labels of the (quantified) hypotheses it needs
         self.lemmas = list(lemmas or [])   # [{'before': '<statement text>', 'prove': {label: clause}}]
         self.blocks = list(blocks or [])   # statement contracts: [{'first','last','assigns','raises','modifies','label'}]
+        # proved in the body, not exported to call sites (clauses over per-path engine state such as assigned()/attr())
+        self.local_ensures = _labelled(local_ensures, 'local')
+        self.ghost_exit = list(ghost_exit or [])   # [(object expr, ghost field, value expr)]: ghost assignments on normal return
         self.decreases = decreases         # termination measure of a recursive function (Int expression over the parameters)
         self.enclosing = enclosing    # params of the enclosing function: its body is run to bind the closure
         self.doc = doc
@@ -670,10 +673,17 @@ def run_one_path(ex, contract, node, res):
                       'returned %r, declared %s' % (value, contract.returns))
                 raise PathEnd()
         env2['result'] = value
+        for oexpr, gfield, vexpr in contract.ghost_exit:
+            # ghost code at the end of the body: obj.<ghost field> := <expr>
+            if not gfield.startswith('g_'):
+                raise ContractError('ghost field %r must be named g_*' % gfield)
+            ex.path.write_field(ex.spec_eval(oexpr, env2, pre), gfield, ex.spec_eval(vexpr, env2, pre))
         for name, expr in contract.lets.items():
             env2[name] = ex.spec_eval(expr, env2, pre)
         assume_instances(ex, contract, contract.instantiate, env2, pre)
         for lab, expr in contract.ensures.items():
+            prove(ex, 'post.' + lab, ex.spec_bool(expr, env2, pre), env=env2)
+        for lab, expr in contract.local_ensures.items():
             prove(ex, 'post.' + lab, ex.spec_bool(expr, env2, pre), env=env2)
     else:
         cls = value.cls
